@@ -7,6 +7,8 @@ stylesheets  S1 plain                                   S2 nested scopes, xsl:me
              S5 top-level variable (result-tree fragment, lazily evaluated, referenced through a second top-level
                 variable) whose evaluation is aborted by xsl:message terminate when $p = 'stop'
              S6 top-level variable whose select uses $p as a node-set: run-time XPath error whenever p is set
+             S8 result-tree-fragment bodies (variable, with-param) aborted by xsl:message right after text was written to the fragment
+                ($p = 'stop': in the variable, $p = 2: in the with-param)
              S7 sorts whose key evaluation fails part-way ($p = 'stop': the text-keyed sort, $p = 2: the number-keyed one)
              SD1 / SD2 value-keyed caches that outlive a call (the transformer's ICU number formatter caches DecimalFormat
                 objects by the VALUE of the decimal-format symbols, its collation functor caches collators by locale):
@@ -212,6 +214,25 @@ S7 = """<?xml version="1.0"?>
 </xsl:stylesheet>
 """ % XSL
 
+# S8: the failure happens inside the body of a result-tree-fragment variable / with-param / param default, right AFTER text has been
+# written to the fragment and before anything else is (the fragment builder still holds the text); without the parameter the same bodies
+# complete, so text left behind by an aborted run would show at the start of the next fragment
+S8 = """<?xml version="1.0"?>
+<xsl:stylesheet version="1.0" %s>
+<xsl:output method="xml" omit-xml-declaration="yes"/>
+<xsl:param name="p" select="'go'"/>
+<xsl:template match="/">
+<out>
+<xsl:variable name="v">pending-v<xsl:if test="$p = 'stop'"><xsl:message terminate="yes">stop in variable</xsl:message></xsl:if><e/>tail</xsl:variable>
+<v n="{string-length($v)}"><xsl:copy-of select="$v"/></v>
+<xsl:call-template name="t"><xsl:with-param name="w">pending-w<xsl:if test="$p = 2"><xsl:message terminate="yes">stop in with-param</xsl:message></xsl:if><f/></xsl:with-param></xsl:call-template>
+<xsl:for-each select="doc/item"><xsl:variable name="i"><xsl:value-of select="."/>-<xsl:value-of select="@n"/></xsl:variable><i><xsl:copy-of select="$i"/></i></xsl:for-each>
+</out>
+</xsl:template>
+<xsl:template name="t"><xsl:param name="w"/><xsl:param name="d">default-d<g/></xsl:param><w n="{string-length($w)}"><xsl:copy-of select="$w"/></w><d><xsl:copy-of select="$d"/></d></xsl:template>
+</xsl:stylesheet>
+""" % XSL
+
 SE = """<?xml version="1.0"?>
 <xsl:stylesheet version="1.0" %s>
 <xsl:output method="xml" encoding="x-no-such-encoding"/>
@@ -256,7 +277,7 @@ DX = """<?xml version="1.0"?>
 """
 
 POOL = {
-    "ss": {"S1": S1, "S2": S2, "S3": S3, "S4": S4, "S5": S5, "S6": S6, "S7": S7, "SD1": SD1, "SD2": SD2, "SE": SE, "SU": SU, "SM": SM, "SX": SX, "SV": SV},
+    "ss": {"S1": S1, "S2": S2, "S3": S3, "S4": S4, "S5": S5, "S6": S6, "S7": S7, "S8": S8, "SD1": SD1, "SD2": SD2, "SE": SE, "SU": SU, "SM": SM, "SX": SX, "SV": SV},
     "src": {"D1": D1, "D2": D2, "DX": DX},
     "vals": {"str": {"form": "expr", "text": "'stop'"},
              "num": {"form": "num", "num": 2},
